@@ -29,13 +29,13 @@ func osEnviron() []string { return os.Environ() }
 
 func (w *World) newExec(fn *ssa.Function, fc *FuncContract) *Exec {
 	x := &Exec{w: w, fn: fn, fnKey: funcKey(fn), fc: fc, interior: map[string]bool{}, nameCnt: map[string]int{}, maxPaths: 4096,
-		abstracted: map[string]bool{}, inlined: map[string]bool{}, trustedUsed: map[string]bool{}, callOrd: map[string]int{}}
+		abstracted: map[string]bool{}, inlined: map[string]bool{}, trustedUsed: map[string]bool{}, callOrd: map[string]int{}, atcallUsed: map[string]bool{}}
 	return x
 }
 
 func (x *Exec) newState() *State {
 	st := &State{x: x, heap: map[string]string{"\x00epoch": "0"}, locks: map[string]int{}, conc: map[string]Val{}, known: map[string]bool{},
-		declared: map[string]bool{}, freshRef: map[string]bool{}, ctr: &x.ctr}
+		declared: map[string]bool{}, freshRef: map[string]bool{}, ctr: &x.ctr, last: map[string]Val{}}
 	st.alloc = st.fresh("alloc0", "Int")
 	st.assume("(>= " + st.alloc + " 0)")
 	return st
@@ -61,6 +61,7 @@ func (w *World) verifyFunc(fn *ssa.Function, fc *FuncContract, safetyTags []stri
 	}()
 	st := x.newState()
 	w.declClass("ghost:$done", "(Array Int Bool)")
+	w.declClass("gg:$decoded", "Int")
 	// parameters
 	var args []Val
 	vars := map[string]Val{}
@@ -83,8 +84,21 @@ func (w *World) verifyFunc(fn *ssa.Function, fc *FuncContract, safetyTags []stri
 	if fc != nil {
 		vars = x.bindParams(fc, fn, args)
 		if fc.Kind == "closure" {
+			// captured variables are cells; contracts of closures see their current contents by name.
+			// Captured struct pointers are assumed non-nil with their type invariant (they are the
+			// parent's receiver / locals that were dereferenced before the closure was created).
 			for i, fv := range fn.FreeVars {
 				vars[fv.Name()] = free[i]
+				if pt, ok := fv.Type().Underlying().(*types.Pointer); ok && sortOf(pt.Elem()) != "" {
+					cv := st.load(st.addrOfPtr(free[i]), pt.Elem())
+					vars[fv.Name()] = cv
+					if ep, ok := pt.Elem().Underlying().(*types.Pointer); ok {
+						if _, isStruct := ep.Elem().Underlying().(*types.Struct); isStruct {
+							st.assume(sNot(sEq(cv.S, "0")))
+							x.assumeStructInv(st, cv)
+						}
+					}
+				}
 			}
 		}
 	}
@@ -131,6 +145,10 @@ func (w *World) verifyFunc(fn *ssa.Function, fc *FuncContract, safetyTags []stri
 	x.runFunc(st, fn, args, free, 0, true, func(st *State, rs []Val) {
 		exits++
 		x.pathID++
+		// cover: at least one exit path of the function must be feasible (vacuity guard)
+		co := &Obligation{Name: x.oblName("cover", "exit", ""), Fn: x.fnKey, Kind: "cover", Goal: "false", Cover: true, Src: "some path through the function reaches a return", PathID: x.pathID}
+		co.Log = append([]string{}, st.log...)
+		x.obls = append(x.obls, co)
 		if fc == nil {
 			return
 		}
@@ -160,6 +178,15 @@ func (w *World) verifyFunc(fn *ssa.Function, fc *FuncContract, safetyTags []stri
 		}
 		x.frameCheck(st, fc, env)
 	})
+	if fc != nil {
+		for name, cls := range fc.AtCalls {
+			if !x.atcallUsed[name] {
+				for _, ac := range cls {
+					x.obls = append(x.obls, &Obligation{Name: x.oblName("atcall", name, ac.Label), Fn: x.fnKey, Kind: "atcall", Tags: ac.Tags, Label: ac.Label, Goal: "false", Src: "no call of " + name + " found: the clause has lost its call site (" + ac.Src + ")", Status: "sat", Solver: "syntactic"})
+				}
+			}
+		}
+	}
 	res.Exits = exits
 	res.Obls = x.obls
 	res.Paths = x.paths + 1
@@ -201,7 +228,8 @@ func (x *Exec) assumeStructInv(st *State, v Val) {
 
 // frameCheck proves that nothing outside the `modifies` clause changed for objects that existed at entry.
 func (x *Exec) frameCheck(st *State, fc *FuncContract, env *specEnv) {
-	if fc.ModAll || fc.Kind == "closure" && len(fc.Modifies) == 0 && !fc.Pure {
+	if fc.ModAll || fc.Kind == "closure" {
+		// closures run as goroutines / once-bodies: their `modifies` describes the spawn effect only
 		return
 	}
 	type allow struct {
